@@ -15,7 +15,9 @@ func parseDirectives(dirs []runner.SerializedDirective) ([]ignore, []diagnostic)
 		args := dir.Arguments
 		switch cmd {
 		case "ignore", "file-ignore":
-			if len(args) < 2 {
+			// The reason is mandatory and must not be empty: "//lint:ignore SA4006 " (trailing
+			// space) splits into the arguments "SA4006" and "".
+			if len(args) < 2 || strings.Join(args[1:], "") == "" {
 				p := diagnostic{
 					Diagnostic: runner.Diagnostic{
 						Position: dir.NodePosition,
